@@ -20,6 +20,9 @@
 (*   FromDict       DataSet.from_dict / _parse            l.237-317        *)
 (*   Duplicate      DataSet.duplicate                     l.319-350        *)
 (*   Average        DataSet.average                       l.352-408        *)
+(* The derived views get_nyquist_data, get_bode_data, get_magnitudes,        *)
+(* get_phases and to_dataframe are functions of the unmasked view and are   *)
+(* compared with it by the replay after every step.                         *)
 (* plus the caller-side steps DropKey / ToV1 (editing an exported          *)
 (* dictionary) and Swap (which of the two live objects the next call        *)
 (* addresses).                                                              *)
